@@ -52,7 +52,11 @@ Init == /\ now = 0 /\ net = {} /\ turn = 1 /\ silentFrom = 0 /\ lost = 0
 Hk(n) ==
   /\ turn = n
   /\ LET h == Housekeep(st[n], Cfg(n), now)
-         pings == {Msg(n, a, "ping", NoInfo) : a \in (DOMAIN h.inits \cup {h.rcout[i][1] : i \in 1..Len(h.rcout)}) \cap Nodes}
+         \* what a pending handshake repeats: an initiator its ping, a responder its pong
+         RepeatOf(a) == IF \E q \in h.s.pend : q.a = a /\ q.st = STAGE_PENG
+                        THEN Msg(n, a, "pong", InfoAfter(h.s, n)) ELSE Msg(n, a, "ping", NoInfo)
+         pings == {RepeatOf(a) : a \in DOMAIN h.inits \cap Nodes}
+                    \cup {Msg(n, a, "ping", NoInfo) : a \in {h.rcout[i][1] : i \in 1..Len(h.rcout)} \cap Nodes}
          infos == {Msg(n, a, "info", InfoAfter(h.s, n)) : a \in h.infos \cap Nodes} IN
      /\ st' = [st EXCEPT ![n] = h.s]
      /\ net' = Send(n, net, pings \cup infos)
@@ -111,7 +115,8 @@ Restart == /\ Silent > 0 /\ FaultKind = "restart" /\ silentFrom = 0 /\ turn = 0 
            /\ UNCHANGED <<now, net, turn, lost>>
 
 \* the network loses a datagram (only in the lossy configurations; the first loss marks the run as faulty)
-Lose(d) == /\ FaultKind = "lossy" /\ turn = 0 /\ d \in net /\ lost < MaxLoss
+LossUntil == 4        \* the network loses datagrams only before this time; afterwards delivery is reliable
+Lose(d) == /\ FaultKind = "lossy" /\ turn = 0 /\ d \in net /\ lost < MaxLoss /\ now < LossUntil
            /\ net' = net \ {d} /\ lost' = lost + 1
            /\ silentFrom' = IF silentFrom = 0 THEN now + 1 ELSE silentFrom
            /\ UNCHANGED <<now, st, turn>>
@@ -151,5 +156,10 @@ NeverRemoved == [][\A n \in Nodes : Addrs(st[n].peers) \subseteq Addrs(st'[n].pe
 McRetries == 3
 McLinger == 2
 McOwnReset == 5
+\* C05 / C14 at design level: once delivery is reliable again the mesh is complete within the largest peer timeout plus
+\* the handshake retry horizon (a half-open attempt has to expire, a one-sided peer entry has to time out, one more
+\* exchange round) - whatever was lost before
+RecoveryHorizon == 5 + McRetries + 4
+RecoversBy == (FaultKind = "lossy" /\ now >= LossUntil + RecoveryHorizon /\ Quiet) => \A n \in Nodes : Addrs(st[n].peers) = Others(n)
 Bound == now <= MaxTime
 =============================================================================
